@@ -10,7 +10,7 @@ Outcome(mm) == mm.val
 Init == l = 1 /\ m = Load(<<>>, [k |-> "lit", v |-> Nil]) /\ bad = <<>> /\ failed = FALSE /\ seen = 0
 Next == /\ l <= Len(Trace) /\ l' = l + 1
         /\ LET e == Trace[l] IN
-           CASE e.ev = "start" -> m' = Load(e.defs, e.ast) /\ bad' = bad /\ failed' = FALSE /\ seen' = seen
+           CASE e.ev = "start" -> m' = LoadD(e.defs, e.ast, IF "dev" \in DOMAIN e THEN {e.dev[j] : j \in 1..Len(e.dev)} ELSE {}) /\ bad' = bad /\ failed' = FALSE /\ seen' = seen
              [] e.ev = "mark" -> IF failed THEN UNCHANGED <<m, bad, failed, seen>> ELSE
                                  LET m2 == RunToMark(m, Len(m.out))
                                      ok == ~m2.halted /\ m2.out[Len(m2.out)] = [id |-> e.id, v |-> e.v] IN
